@@ -20,7 +20,10 @@ import logging
 from common import *
 
 chk = Check('C14')
-chk.extra['rule'] = ('residue chains (2-4 residues, template atoms N CA C O CB [CG]) with 0-3 attachments drawn '
+chk.extra['rule'] = ('[streams added in the extension round: identify_ptms called directly with annotated=None; processor histories = one '
+                     'CanonicalizeModifications instance over 2-3 molecules whose force fields have equal / different names and different '
+                     'modification sets or are one object edited in between, run_molecule and run_system; real charmm residues with the shipped '
+                     'charmm modifications compared with the model; warning records with residue names and atom names compared] residue chains (2-4 residues, template atoms N CA C O CB [CG]) with 0-3 attachments drawn '
                      'from a toy library (N-ter/NH, OXT/COOH, phosphate with and without H, methyl with replace, '
                      'bridges over two residues, ring on CA+CB with and without the CA-CB edge, anchor-only, random '
                      'patterns and their sub-patterns), attachments with wrong element / extra atom / extra bond, '
@@ -714,6 +717,7 @@ def gen_case(rng):
         resids.append(rid)
         rid += rng.choice([1, 1, 1, 2])
     hist = []
+    pre_done = set()
     natt = rng.choice([0, 1, 1, 2, 2, 3])
     all_L = lib_fixed()
     for _ in range(natt):
@@ -747,6 +751,14 @@ def gen_case(rng):
         # applied through `modify`: canonical names, pre-labelled (only patterns with distinct atom names:
         # apply_mod_to_block works on one block whose atom names are unique)
         pre = rng.random() < 0.08 and src in lib and len({a[2]['atomname'] for a in matoms}) == len(matoms)
+        if pre and (src, ri) in pre_done:
+            # the same modification annotated twice on one residue would give two atoms of one residue the same
+            # name: outside the contract of fix_ptm (atom names are correct, i.e. unique per residue) - the
+            # attachment is generated as an ordinary flagged one instead
+            pre = False
+            hist.append('excluded_same_annotation_twice')
+        if pre:
+            pre_done.add((src, ri))
         foreign = rng.random() < 0.05
         for a in ptm_m:
             attrs = A(a[2]['atomname'] if pre else 'X%d' % key, a[2]['element'],
